@@ -904,11 +904,15 @@ def abs_resign(clause, res, doc, eid):
 def gen_fixed_doc(rng):
     n = rng.choice([1, 2])
     fixed = []
+    where = rng.choice(['first', 'middle', 'nested', 'later'])
     for i in range(n):
         st = ['position:fixed']
         for prop in ('left', 'right', 'top', 'bottom'):
             # nothing hangs below the page bottom (a box cut there is treated as fragmented: known, not re-reported)
-            st.append('%s:%s' % (prop, gen_len(rng, neg=prop != 'bottom')))
+            v = gen_len(rng, neg=prop != 'bottom')
+            if where == 'later' and prop == 'top' and v == 'auto':
+                v = '%dpx' % rng.choice([0, 20, 100])     # met on the last page: no static vertical position to compare
+            st.append('%s:%s' % (prop, v))
         st.append('width:%s' % gen_len(rng, p_auto=0.5, choices=(10, 40, 80)))
         height = gen_len(rng, p_auto=0.5, choices=(10, 30))
         st.append('height:%s' % height)
@@ -921,9 +925,10 @@ def gen_fixed_doc(rng):
         blocks.append('<div id="k%d" style="height:%dpx%s">abc</div>' % (
             k, rng.choice([40, 90, 150, 260]), ';break-before:page' if rng.random() < 0.2 else ''))
     blocks.append('<div id="klast" style="height:40px;break-before:page">abc</div>')     # always at least two pages
-    where = rng.choice(['first', 'middle', 'nested'])
     if where == 'first':
         body = ''.join(fixed) + ''.join(blocks)
+    elif where == 'later':
+        body = ''.join(blocks) + ''.join(fixed)        # met on the last page, must be repeated on the earlier ones
     elif where == 'middle':
         # after one short block: the static position stays clear of the page bottom
         blocks[0] = '<div id="k0" style="height:%dpx">abc</div>' % rng.choice([40, 90])
@@ -956,8 +961,8 @@ def judge_fixed(doc, pages):
 def check_fixed_monitor(S, rng, thorough):
     docs = [gen_fixed_doc(rng) for _ in range(600 if thorough else 150)]
     S.add_monitor('render-fixed', 'render_positions', docs, judge_fixed,
-                  '1..2 position:fixed boxes (offsets/size/margins auto|px|%) met first, after a first block or inside a '
-                  'relative box, 2..8 pages; present with the same rectangle on every page', 'fixed')
+                  '1..2 position:fixed boxes (offsets/size/margins auto|px|%) met first, after a first block, inside a '
+                  'relative box or on the last page, 2..8 pages; present with the same rectangle on every page', 'fixed')
 
 
 # ------------------------------------------------------------------------- monitor: relative (metamorphic)
